@@ -285,7 +285,7 @@ def run(ctx):
     ctx.trusted = ["heapless 0.7.17 Vec::push appends at the end or returns Err when full", "cbor-smol 0.5.1 SeqAccess::next_element", "derive(Deserialize) for PublicKeyCredentialParameters (C01 table)"]
     for cfg, F in ctx.facts.items():
         # ------------------------------------------------ algorithm list
-        check_filter(ctx, F, cfg, "webauthn::FilteredPublicKeyCredentialParameters", lambda out, member: out[2][0] if out[0] == "ctor" and len(out[2]) == 1 else None, PARAMS,
+        check_filter(ctx, F, cfg, "webauthn::FilteredPublicKeyCredentialParameters", lambda out, member: out[2][0] if out[0] == "ctor" and len(out[2]) == 1 else (out if rooted_fresh(out) else None), PARAMS,
                      "<%s as core::convert::TryFrom<%s>>" % (KNOWN, PARAMS), "C14|algs")
         # ------------------------------------------------ known-parameter conversion
         conv = F.trait_impl_fn("<%s as core::convert::TryFrom<%s>>" % (KNOWN, PARAMS), "try_from")
